@@ -224,7 +224,7 @@ def gen_sync_read(rng):
                 fs[path] = ("chunks", chunks)
             else:
                 fs[path] = content
-            cb = rng.choice(["none", "none", "count", "raise"])
+            cb = rng.choice(["none", "none", "count", "raise", "raisebase"])
             if cb != "none":
                 stat[path] = (33188, len(content), 5)
             ops.append(dict(op="pull", path=path, cb=cb, dest=rng.choice(["bytesio", "file"])))
@@ -243,7 +243,7 @@ def gen_sync_read(rng):
                 if k in stat:
                     stat[k] = (33188, len(whole), 5)
     sim = dict(maxdata=rng.choice([4096, 8192, 65536, 262144, 1 << 20]), fs=fs, stat=stat, burst=rng.random() < 0.4,
-               okay_after_reply=rng.random() < 0.35, wrte_split=split, data_chunk=data_chunk, remote_ids=rand_remote_ids(rng), stray=stray_packets(rng))
+               okay_after_reply=rng.random() < 0.35, clse_zero_remote=rng.random() < 0.15, wrte_split=split, data_chunk=data_chunk, remote_ids=rand_remote_ids(rng), stray=stray_packets(rng))
     return dict(envs=[base_env(rng, sim)], ops=ops, healthy=True)
 
 
@@ -266,7 +266,9 @@ def gen_push(rng, big=False):
         kind = rng.choice(["bytesio", "file", "file", "dir"])
         path = ("/sdcard/%s%d" % (rng.choice(["x", "x", "x" * 60, "x" * 1000, "\u00e9\u6587\u4ef6", "d\u00efr/\U0001f600"]), i)).encode("utf8")
         op = dict(op="push", path=path, mode=rng.choice([33272, 0, 1, 0o100644, 2 ** 31, 2 ** 32 - 1]), mtime=rng.choice([0, 0, 1, 2 ** 31, 2 ** 32 - 1]),
-                  cb=rng.choice(["none", "count", "raise"]))
+                  cb=rng.choice(["none", "count", "raise", "raisebase"]))
+        if kind == "bytesio" and rng.random() < 0.3:
+            op["seek"] = rng.choice([1, 7, 4096])       # the BytesIO was already read up to here: push sends the rest
         if kind == "dir":
             ents = []
             for j in range(rng.randrange(0, 4)):
@@ -345,11 +347,13 @@ def gen_mixed(rng, healthy=True):
     ops = [connect_op(rng)]
     pool = [dict(op="shell", cmd=b"echo", decode=rng.random() < 0.5), dict(op="stat", path=b"/f"), dict(op="list", path=b"/d"),
             dict(op="pull", path=b"/f", cb=rng.choice(["none", "count"])), dict(op="push", src=("bytesio", 0), path=b"/sdcard/up", cb=rng.choice(["none", "count"])),
-            dict(op="exec_out", cmd=b"echo", decode=False), dict(op="streaming_shell", cmd=b"echo", decode=rng.random() < 0.5), dict(op="root")]
+            dict(op="exec_out", cmd=b"echo", decode=False), dict(op="streaming_shell", cmd=b"echo", decode=rng.random() < 0.5), dict(op="root"),
+            dict(op="reboot", fastboot=rng.random() < 0.5)]
     rng.shuffle(pool)
     ops += pool[:rng.randrange(2, 7)]
     sim = dict(maxdata=rng.choice([4096, 65536]), shell=shell, fs=fs, stat=stat, burst=rng.random() < 0.3, remote_ids=rand_remote_ids(rng),
-               wrte_split=rng.choice([None, [7], [1000]]), data_chunk=rng.choice([100, 4096, 65536]), okay_after_reply=rng.random() < 0.3)
+               wrte_split=rng.choice([None, [7], [1000]]), data_chunk=rng.choice([100, 4096, 65536]), okay_after_reply=rng.random() < 0.3,
+               clse_zero_remote=rng.random() < 0.15)
     return dict(envs=[base_env(rng, sim)], ops=ops, files=files, healthy=healthy)
 
 
@@ -558,7 +562,8 @@ def gen_corrupt(rng):
     if kind == "sum":
         how = rng.choice([True, True, "zero", "zero", rng.getrandbits(32), 0xFFFFFFFF])
     else:
-        how = rng.choice([True, 0x100, 0x80, 0x8000, 0x80000000, 0xFFFFFFFF, 1 << rng.randrange(32)])
+        # bit flips, and whole words that are ids of OTHER protocols / protocol versions but not ADB commands of this library
+        how = rng.choice([True, 0x100, 0x80, 0x8000, 0x80000000, 0xFFFFFFFF, 1 << rng.randrange(32), b"STLS", b"FAIL", b"DATA", b"QUIT", b"okay"])
     base["envs"][0]["sim"]["corrupt"] = (rng.randrange(1, 12), kind, how)
     base["healthy"] = False
     return base
